@@ -11,7 +11,7 @@ ASSUMPTIONS_COMMON = [
     'no assume()/admit() in any generated file (scanned on every run)',
 ]
 
-CLAIMED = ['C01', 'C06', 'C09', 'C14', 'C15', 'C20']
+CLAIMED = ['C01', 'C02', 'C05', 'C06', 'C07', 'C09', 'C12', 'C14', 'C15', 'C20']
 
 INFO = {
  'C20': {
@@ -22,6 +22,11 @@ INFO = {
  },
 }
 INFO.update({
+ 'C05': {'claim': 'Timer heap and per-timer contracts, unbounded: next_expired returns only entries with deadline <= now, always an earliest one, and removes exactly it; cancel removes every entry of the counter (given one entry per counter) and never touches other timers; the callback is reachable only for the timer own current arming and only with its current deadline; Drop => Remove, ToInstant(i) => deadline i; reregister == unregister;register.',
+         'not_covered': ['cross-timer histories through the shared Rc<RefCell<TimerWheel>> (uniq across dispatches, F5)', 'Poll::poll loop (see C02/C12 slices)'], 'trusted': ['BinaryHeap root is a cmp-maximal element; Instant order = integer nanoseconds']},
+ 'C02': {'claim': 'Interest/mode translation exact (cvt_interest/cvt_mode, all combinations); every due timer is returned by next_expired.', 'not_covered': ['dispatch_events loop'], 'trusted': []},
+ 'C12': {'claim': 'next_deadline is the true minimum deadline or None iff the heap is empty.', 'not_covered': ['Poller::wait'], 'trusted': []},
+ 'C07': {'claim': 'Source side of disable: after unregister a Timer has no arming and its process_events cannot reach the callback; DispatcherInner::unregister defers (touches nothing) when the source is borrowed.', 'not_covered': ['LoopHandle::{disable,enable}'], 'trusted': []},
  'C09': {'claim': 'PostAction algebra proved for all 16 pairs on the verbatim BitOr/BitOrAssign impls (a|b == a if a==b else Reregister; |= agrees).',
          'not_covered': ['application of the post-action in EventLoop::dispatch_events (loop-global Cell behind &self)'], 'trusted': []},
  'C14': {'claim': 'The additional-lifecycle set stays duplicate-free and only ever gains the registering source\'s own token under every outcome of DispatcherInner::{register,reregister,unregister} (both values of the opaque needs_additional_lifecycle_events flag, both outcomes of try_borrow_mut, Ok and Err of the wrapped source).',
